@@ -22,6 +22,7 @@ import (
 // Prog is the resolved program: type-checked packages, SSA, call graph and the
 // roles discovered from the public API (never from private helper names).
 type Prog struct {
+	Sizes   types.Sizes // of the target architecture the tree was loaded for
 	Root    string
 	ModPath string
 	Fset    *token.FileSet
@@ -83,6 +84,10 @@ func Load(root string, tags string, goarch string) *Prog {
 	if len(pkgs) == 0 {
 		fatalf("load: zero packages under %s", root)
 	}
+	var sizes types.Sizes = types.SizesFor("gc", "amd64")
+	if pkgs[0].TypesSizes != nil {
+		sizes = pkgs[0].TypesSizes
+	}
 	nerr := 0
 	packages.Visit(pkgs, nil, func(p *packages.Package) {
 		for _, e := range p.Errors {
@@ -93,7 +98,7 @@ func Load(root string, tags string, goarch string) *Prog {
 	if nerr > 0 {
 		fatalf("%d load/type errors; refusing to analyse", nerr)
 	}
-	p := &Prog{Root: root, Fset: pkgs[0].Fset, ByPath: map[string]*packages.Package{}, EcoBy: map[string]*Eco{}}
+	p := &Prog{Sizes: sizes, Root: root, Fset: pkgs[0].Fset, ByPath: map[string]*packages.Package{}, EcoBy: map[string]*Eco{}}
 	sort.Slice(pkgs, func(i, j int) bool { return pkgs[i].PkgPath < pkgs[j].PkgPath })
 	p.Pkgs = pkgs
 	for _, pk := range pkgs {
